@@ -364,6 +364,13 @@ class SimpleJSONRPCDispatcher(SimpleXMLRPCDispatcher, object):
                 else:
                     response = self._dispatch(method, params, config)
             except Exception as ex:
+                if is_notification:
+                    # A notification must never be answered, even on error
+                    _logger.error(
+                        "Error calling notification method %s: %s", method, ex
+                    )
+                    return None
+
                 # Return a fault
                 fault = Fault(
                     -32603,
